@@ -76,6 +76,8 @@ def universe():
     u += [(L('m/'), W('k', 'rex', (rx3, 1)), L('/'), W('n')), (L('m/'), W('k', 'rex', (rx3, 2)), L('/'), W('n')),
           (L('m/'), W('k', 'rex', (rx3, 3))), (L('m/'), W(None, 'rex', (rx3, 2)), L('doc/x')),
           (L('t/'), W('v', 'rex', ('[a-z]+-[0-9]+', None))), (L('m/'), W('k', 'rex', (rx3, 1)), L('-'), W('n', 'int'))]
+    # a number followed by a literal that begins with a dot; two numbers around dots
+    u += [(L('p/'), W('v', 'float'), L('.json')), (L('r/'), W('a', 'float'), L('..'), W('b', 'float')), (L('p/'), W('v', 'int'), L('.json'))]
     return u
 
 
